@@ -357,6 +357,20 @@ Proof.
 Qed.
 End Reply.
 
+(* ---- a NUL in the msgid copied into +draft/reply survives: tag escaping has no image for it ---- *)
+Definition nul_tag_cfg : rcfg :=
+  RCfg [35; 99] [98; 111; 98] None [[35; 99]] None None None false false true
+       false false true false false true (Some (Some [97; 0; 98])).
+
+Lemma reply_tag_nul_refuted :
+  replytag_ok nul_tag_cfg = false /\ escape [0] = [0] /\
+  exists m, makeReply_real nul_tag_cfg [104; 105] = Ok m /\ ~ one_line (serialize m).
+Proof.
+  split; [reflexivity|]. split; [vm_compute; reflexivity|].
+  eexists. split; [vm_compute; reflexivity|].
+  intro H. apply one_line_iff in H. vm_compute in H. discriminate.
+Qed.
+
 (* ---- IrcMsg(msg=m) alone is a pure copy ---- *)
 Lemma ctor_copy m : copy_msg m = m.
 Proof. destruct m. reflexivity. Qed.
